@@ -31,7 +31,7 @@ func (eng) Rule() string {
 		"after SetSchema, disposed} x up to 24 argument tuples drawn from per-type domains (existing state names and subsets incl. empty and " +
 		"duplicates, nil/empty/non-empty args, live/canceled/nil ctx where optional, all Positions, zero pools, events with and without a " +
 		"machine); each call is logged before it is made and runs under recover and a watchdog in a child process; (law) state-list and " +
-		"time algebra against set-theoretic references over PRNG inputs; (help) pkg/helpers wait/ask/sync helpers against the tracer, the Cant*/CanAdd+ACheck questions also asked behind a held queue; " +
+		"time algebra against set-theoretic references over PRNG inputs; (help) pkg/helpers wait/ask/sync helpers against the tracer, the Cant*/CanAdd+ACheck questions and AddSync/RemoveSync (live and nil context) also asked behind a held queue, CanRemove1 with args a handler decides by; " +
 		"(copy) mutating values returned by getters must not change the machine; (json) integration handlers with valid requests. " +
 		"Evaluation = one call or one law instance; distinct non-trivial = distinct (receiver type, method, phase) or law name."
 }
